@@ -599,6 +599,15 @@ def big_enum_overflow(ctx):
 def replay(ctx, case):
     import warnings
     warnings.filterwarnings("ignore")
+    if "history" in case:
+        import random
+        d = str(ctx.tmp / "replay")
+        os.makedirs(d, exist_ok=True)
+        n0 = len(ctx.failures)
+        history_pass(ctx, d, random.Random(1), "r")
+        for f in ctx.failures[n0:]:
+            print("  ", str(f[1])[:300])
+        return len(ctx.failures) == n0
     if "big" in case:
         import random
         b = case["big"]
